@@ -463,6 +463,13 @@ def r_zip(E):
             rel2, tw.lineno, "ModelingUpdate.link_simulated_and_baseline_twins"))
     else:
         # both directions are assigned
+        res.instances += 1
+        if any(isinstance(x, (ast.Continue, ast.Break, ast.If)) for st in loop.body for x in ast.walk(st)):
+            res.findings.append(Finding(
+                "R-ZIP", "twins :: conditional",
+                "link_simulated_and_baseline_twins skips some pairs (a condition / continue inside the loop): those "
+                "recomputed baseline values have no simulated twin (per-usage-pattern dicts, for instance)", rel2,
+                loop.lineno, "ModelingUpdate.link_simulated_and_baseline_twins"))
         a, b = [e.id for e in loop.target.elts] if isinstance(loop.target, ast.Tuple) else (None, None)
         links = {(norm(n.targets[0].value), n.targets[0].attr, norm(n.value)) for n in ast.walk(loop)
                  if isinstance(n, ast.Assign) and isinstance(n.targets[0], ast.Attribute)}
@@ -753,6 +760,14 @@ def r_edge(E):
             for h in hits:
                 q, fn = _enclosing(n)
                 res.instances += 1
+                if q == "ModelingObject.add_to_contextual_modeling_obj_containers" and not (
+                        isinstance(n, ast.Call) and n.func.attr == "append"):
+                    res.findings.append(Finding(
+                        "R-EDGE", f"{q} rewrites {h} :: {norm(n)[:90]}",
+                        f"{q} rebuilds the link registry instead of only appending to it: wrappers that are not attached "
+                        f"*yet* (a batch update creates all of them before attaching any) are dropped, so an object "
+                        f"referenced twice in one update is reported by one holder only", rel, n.lineno, q))
+                    continue
                 if q not in EDGE_WRITERS[h]:
                     res.findings.append(Finding(
                         "R-EDGE", f"{q} writes {h} :: {norm(n)[:90]}",
@@ -1037,4 +1052,35 @@ def r_pureview(E):
                                         node.lineno, where[1]))
     res.samples = [{"system_views_interpreted": SYSTEM_VIEWS}]
     res.floor = 30
+    return res
+
+
+@rule("R-OBJID")
+def r_objid(E):
+    pm = E.pm
+    res = RuleResult("R-OBJID", "model objects are compared and hashed by id, so the id must be unique per object (drawn "
+                                "from uuid4), not a function of the name")
+    # model objects: the identifier must be unique per object, not a function of the name
+    rel3, mi = pm.find_function(MO, "ModelingObject.__init__")
+    res.instances += 1
+    ida = next((n for n in ast.walk(mi) if isinstance(n, ast.Assign) and norm(n.targets[0]) == "self.id"), None)
+    if ida is None:
+        res.undecided.append("ModelingObject.__init__: id assignment not found")
+    else:
+        uniq = any(isinstance(c, ast.Call) and norm(c.func) in ("uuid.uuid4", "uuid4", "uuid.uuid1", "uuid1") for c in ast.walk(ida.value))
+        if not uniq:
+            res.findings.append(Finding(
+                "R-OBJID", "ModelingObject.id not unique per object",
+                f"ModelingObject ids are built as `{norm(ida.value)[:80]}`, a function of the name only: two distinct objects "
+                f"with the same name (Network.wifi_network() twice, Storage.ssd() twice) compare equal and hash alike, so "
+                f"sets and membership tests merge them and one silently disappears from the system", rel3, ida.lineno,
+                "ModelingObject.__init__"))
+    # equality and hash are both id-based (they must agree)
+    rel4, eq = pm.find_function(MO, "ModelingObject.__eq__")
+    rel4, hs = pm.find_function(MO, "ModelingObject.__hash__")
+    res.instances += 1
+    if "self.id" not in norm(eq) or "self.id" not in norm(hs):
+        res.findings.append(Finding("R-OBJID", "eq/hash not id-based", "ModelingObject.__eq__ and __hash__ no longer both use "
+                                    "the id", rel4, eq.lineno, "ModelingObject.__eq__"))
+    res.floor = 2
     return res
